@@ -110,7 +110,7 @@ var c11OpTemplates = []string{
 	"cy := []interface{}{nil}; cy[0] = cy; println(cy)", "cy := []interface{}{nil}; cy[0] = cy; panic(cy)", "cm := map[string]interface{}{}; cm[\"a\"] = cm; println(cm)", "cm := map[string]interface{}{}; cm[\"a\"] = cm; panic(cm)",
 	"cp := &S{}; cp.P = cp; println(cp, *cp)", "cp := &S{}; cp.P = cp; panic(cp)", "cp := &S{}; cp.P = cp; panic(*cp)", "ca := [1]interface{}{}; ca[0] = &ca; println(ca); panic(ca)",
 	"type N struct{ v interface{} }; cn := &N{}; cn.v = cn; println(*cn == *cn); panic(*cn)", "type N struct{ v interface{} }; cn := &N{}; cn.v = cn; me := map[interface{}]int{}; me[*cn] = 1; println(len(me))", "cy := []interface{}{nil}; cy[0] = &cy; var e2 interface{} = cy[0]; println(e2 == e2)",
-"println(it.(*S).A)", "println(it.(S).A)", "var n interface{}; println(n.(int))", "var n I; n.(*S).Set(1)", "f2 := it.Get; println(f2())", "f2 := pnil.Get; println(f2())", "f2 := S.Get; println(f2(S{A: i}))", "f2 := (*S).Set; f2(pnil, 1)", "f2 := I.Get; println(f2(it))", "var n I; f2 := n.Get; println(f2())",
+	"println(it.(*S).A)", "println(it.(S).A)", "var n interface{}; println(n.(int))", "var n I; n.(*S).Set(1)", "f2 := it.Get; println(f2())", "f2 := pnil.Get; println(f2())", "f2 := S.Get; println(f2(S{A: i}))", "f2 := (*S).Set; f2(pnil, 1)", "f2 := I.Get; println(f2(it))", "var n I; f2 := n.Get; println(f2())",
 }
 
 func c11GenOps(rt *rapid.T) (string, []string) {
